@@ -239,6 +239,17 @@ Section DenEq.
                        | [v] => let! d := D body (upd ρ x (DV v)) in to_val d
                        | _ => Panic P_ILLTYPED end)).
   Proof. reflexivity. Qed.
+  Lemma den_RClosureMove x body ρ :
+    D (RClosureMove x body) ρ =
+    Ret (DF (fun vs => match vs with
+                       | [v] => let! d := D body (upd ρ x (DV v)) in to_val d
+                       | _ => Panic P_ILLTYPED end)).
+  Proof. reflexivity. Qed.
+  (* a `move` closure means what the plain closure means *)
+  Lemma den_RClosureMove_RClosure x body ρ : D (RClosureMove x body) ρ = D (RClosure x body) ρ.
+  Proof. reflexivity. Qed.
+  Lemma den_wrapper_closure cfg inner ρ : D (wrapper_closure cfg inner) ρ = D (RClosure n_v inner) ρ.
+  Proof. unfold wrapper_closure. destruct (is_async cfg && is_spawn cfg); reflexivity. Qed.
   Lemma den_RClosureIgn body ρ :
     D (RClosureIgn body) ρ =
     Ret (DF (fun vs => match vs with
